@@ -18,6 +18,8 @@ R4 unfolding: the replacement layer's config takes every shared key from the
    get_folded_weights().
 R5 the classes convert_to_folded_model folds are the ones model_quantize has
    a folding arm for, and the arm's target class exists.
+R8 the network convert_to_folded_model rebuilds is the original one without
+   the folded batch-normalisations (operator layers keep their own constants).
 """
 import ast
 from fractions import Fraction as F
@@ -539,6 +541,89 @@ def rule_fold_selection(rep, repo):
              want_r), loc=loc)
 
 
+def _canon(e):
+  if isinstance(e, tuple) and len(e) == 3 and isinstance(e[1], tuple):
+    return (e[0], tuple(sorted((_canon(i) for i in e[1]), key=repr)), e[2])
+  return e
+
+
+def _first_difference(got, want):
+  """(layer, what) of the innermost layer application where the rebuilt and
+  the original network differ."""
+  if not (isinstance(got, tuple) and isinstance(want, tuple) and
+          len(got) == 3 and len(want) == 3):
+    return None, "%r instead of %r" % (got, want)
+  if got[0] != want[0]:
+    return want[0], "layer %s applied where the original has %s" % (got[0],
+                                                                  want[0])
+  if len(got[1]) == len(want[1]):
+    for g, w in zip(got[1], want[1]):
+      if g != w:
+        inner = _first_difference(g, w)
+        if inner[0] is not None:
+          return inner
+  if got[2] != want[2]:
+    return got[0], "constant operand %r, the original model has %r" % (
+        got[2], want[2])
+  return got[0], "inputs %s, the original model has %s" % (
+      [i[0] for i in got[1]], [i[0] for i in want[1]])
+
+
+def rule_fold_rebuild(rep, repo):
+  """R8: the second half of convert_to_folded_model - the network is rebuilt
+  from the graph without the folded batch-normalisation nodes - is
+  interpreted on a synthetic network with several constant-operand operator
+  layers of the same kind (tf.math.multiply, tf.math.multiply_1,
+  tf.math.multiply_10, tf.__operators__.add, tf.__operators__.add_1, each
+  with its own constant in the model config): the rebuilt output has to be
+  the original network with exactly the two foldable batch-normalisations
+  left out - every layer applied once, to the outputs of its own
+  predecessors, every operator layer with the constant the model config
+  records for THAT layer."""
+  um = repo.module("qkeras.utils")
+  cf = um.functions.get("convert_to_folded_model")
+  unit = "%s::convert_to_folded_model" % um.relpath
+  loc = um.loc(cf)
+  from ..graphmock import rebuild_harness
+  model, qg, topo, model_ctor, st = rebuild_harness()
+  pe = PE(repo, module_overrides={um.name: {
+      "clone_model": lambda pe, a, k: model, "qgraph": qg,
+      "Model": model_ctor}})
+  pe.opaque_ext = True
+  pe.ext_overrides = {"*.topological_sort": topo}
+  try:
+    pe.call(pe.lookup_global("convert_to_folded_model", um), [model], {})
+  except PyRaise as e:
+    rep.fail("R8", unit, "fold-rebuild-raises",
+             "convert_to_folded_model raises %s on the synthetic network "
+             "with operator layers" % e, loc=loc)
+    return
+  got = st["outputs"]
+  want = st["expected"]
+  ok = got is not None and len(got) == len(want) and all(
+      _canon(g) == _canon(w) for g, w in zip(got, want))
+  if ok:
+    rep.check(True, "R8", unit, "rebuilt-network", "", loc=loc)
+  elif got is None or len(got) != len(want):
+    rep.fail("R8", unit, "rebuilt-network",
+             "the rebuilt model has outputs %r, expected one output" % (got,),
+             loc=loc)
+  else:
+    lay, what = _first_difference(_canon(got[0]), _canon(want[0]))
+    rep.fail("R8", unit, "rebuilt-network:%s" % lay,
+             "the network rebuilt without the folded batch-normalisations "
+             "differs from the original at layer %s: %s" % (lay, what),
+             loc=loc, facts={"rebuilt": repr(got[0])[:600],
+                             "expected": repr(want[0])[:600]})
+  calls = [c for c, _ in st["calls"]]
+  rep.check(len(calls) == len(set(calls)) and
+            set(calls) == set(st["constants"]) - {"bn", "bn_1"}, "R8", unit,
+            "layers-applied-once",
+            "layers applied while rebuilding: %s; expected every layer "
+            "except the folded batch-normalisations exactly once" % calls,
+            loc=loc)
+
+
 def rule_populate(rep, repo):
   """R7: populate_bias_quantizer_from_accumulator gives a folded layer that
   was built without a bias quantizer the accumulator type as bias quantizer;
@@ -641,6 +726,8 @@ def run(rep, repo, tier):
   rule_lists(rep, repo)
   rule_fold_selection(rep, repo)
   rep.require_instances("R6", 2)
+  rule_fold_rebuild(rep, repo)
+  rep.require_instances("R8", 2)
   rule_populate(rep, repo)
   rep.require_instances("R7", 6)
   rep.require_instances("R1", 60)
